@@ -169,9 +169,18 @@ class Param:
             bm = mm.DensePositiveDefiniteMatrix(base.copy()) if rng.integers(0, 2) else mm.PositiveDiagonalMatrix(np.diag(base).copy())
             based = np.array(bm.array)
             im = mm.DensePositiveDefiniteMatrix(inner.copy()) if has_inner else None
-            self.build = lambda p: mm.PositiveDefiniteLowRankUpdateMatrix(mm.DenseRectangularMatrix(np.array(p)), bm, im, sign=sign)
+            precap = bool(rng.integers(0, 3) == 0)  # capacitance matrix supplied by the caller (constructor option)
+
+            def build(p, bm=bm, im=im, sign=sign, precap=precap, inner=inner, based=based):
+                cap = None
+                if precap:
+                    pa = np.array(p)
+                    cap = mm.DenseSymmetricMatrix(np.linalg.inv(inner) + sign * pa.T @ np.linalg.solve(based, pa))
+                return mm.PositiveDefiniteLowRankUpdateMatrix(mm.DenseRectangularMatrix(np.array(p)), bm, im, capacitance_matrix=cap, sign=sign)
+
+            self.build = build
             self.dense = lambda p: based + sign * p @ inner @ p.T
-            self.opts = [sign, has_inner, type(bm).__name__]
+            self.opts = [sign, has_inner, type(bm).__name__, "precap" if precap else "lazycap"]
         else:
             raise ValueError(cls)
 
@@ -250,9 +259,25 @@ def run_case(case, obs) -> None:
     f2 = lambda p: float(v @ np.linalg.solve(prm.dense(p), v))  # noqa: E731
     gap = getattr(prm, "gap", "n/a")
     tag = f"{cname}" + (f":gap-{gap}" if case["cls"] == "softabs" and gap in ("near", "equal", "exact") else "")
-    for which, f, get in (("grad_log_abs_det", f1, lambda: m.grad_log_abs_det),
-                          ("grad_quadratic_form_inv", f2, lambda: m.grad_quadratic_form_inv(v.copy()))):
+    # access history: the gradients are requested in either order, each twice, optionally after other lazily computed
+    # attributes of the same object (inverse, log-determinant, dense array) have been evaluated
+    pre = [str(x) for x in rng.choice(["inv", "log_abs_det", "array", "inv_product"], size=int(rng.integers(0, 3)), replace=False)]
+    for a in pre:
+        _ = {"inv": lambda: m.inv, "log_abs_det": lambda: m.log_abs_det, "array": lambda: m.array, "inv_product": lambda: m.inv @ v}[a]()
+    plan = [("grad_log_abs_det", f1, lambda: m.grad_log_abs_det), ("grad_quadratic_form_inv", f2, lambda: m.grad_quadratic_form_inv(v.copy()))]
+    if rng.integers(0, 2):
+        plan.reverse()
+    plan = plan + plan
+    hist = tuple(pre) + tuple(w for w, _, _ in plan)
+    obs.token("history", case["cls"], tuple(pre), plan[0][0])
+    for step, (which, f, get) in enumerate(plan):
         g = get()
+        if step >= 2:
+            tag_h = tag + ":repeat"
+        elif pre or step == 1:
+            tag_h = tag + ":after-other-attributes"
+        else:
+            tag_h = tag
         obs.count("gradients_compared")
         obs.count(f"compared.{cname}.{which}")
         # structure
@@ -272,13 +297,13 @@ def run_case(case, obs) -> None:
             obs.violation(f"{which}:structure:{cname}", f"{cname}.{which}: {e}; options {prm.opts}")
             continue
         if nonfinite:
-            obs.violation(f"{which}:non-finite:{tag}", f"{cname}.{which} contains NaN/inf; options {prm.opts}, size {n}")
+            obs.violation(f"{which}:non-finite:{tag_h}", f"{cname}.{which} contains NaN/inf; options {prm.opts}, size {n}")
             continue
         obs.maxi(f"relerr.{which}.{cname}", worst, prm.opts)
         if worst > TOL:
-            obs.violation(f"{which}:mismatch:{tag}",
+            obs.violation(f"{which}:mismatch:{tag_h}",
                           f"{cname}.{which} differs from finite differences of the dense formula by {worst:.3e} (rel) "
-                          f"{worst_info}; options {prm.opts}, size {n}")
+                          f"{worst_info}; options {prm.opts}, size {n}, access history {hist[:len(pre) + step + 1]}")
         if prm.space == "sym":
             ga = np.asarray(g, dtype=float)
             if np.max(np.abs(ga - ga.T)) > 1e-9 * max(1.0, np.max(np.abs(ga))):
